@@ -163,3 +163,23 @@ Proof.
   split; [exact boot_inv|]. repeat split; try reflexivity.
   cbn. intuition discriminate.
 Qed.
+
+(** audit B: C04_pdt_trans_keeps_w64 - its hypothesis holds at the boot state and the premises of both conjuncts are met
+    by real runs (a mapping from the boot state, its removal), so the conclusion is used, not vacuously true *)
+Example C04_pdt_trans_keeps_w64_nonvacuous :
+  T.mem_w64 boot /\ (3 : N) < two64 /\
+  (exists s' e, map_page PG 0x4242 3 boot = Ok (s', e) /\ e = 0 /\ T.mem_w64 s' /\
+     exists s'' e', unmap_page PG s' = Ok (s'', e') /\ e' = 0 /\ T.mem_w64 s'').
+Proof.
+  assert (Hb : T.mem_w64 boot) by (apply T.init_state_w64; reflexivity).
+  split; [exact Hb|]. split; [reflexivity|].
+  destruct (map_page PG 0x4242 3 boot) as [[s' e]|] eqn:E; [|vm_compute in E; discriminate].
+  assert (He : e = 0) by (vm_compute in E; injection E as _ <-; reflexivity).
+  assert (Hw : T.mem_w64 s') by (exact (proj1 (T.trans_keeps_w64 boot s' e Hb) PG 0x4242 3 eq_refl E)).
+  exists s', e. split; [reflexivity|]. split; [exact He|]. split; [exact Hw|].
+  destruct (unmap_page PG s') as [[s'' e']|] eqn:E2.
+  - exists s'', e'. split; [reflexivity|]. split.
+    + vm_compute in E. injection E as <- _. vm_compute in E2. injection E2 as _ <-. reflexivity.
+    + exact (proj2 (T.trans_keeps_w64 s' s'' e' Hw) PG E2).
+  - exfalso. vm_compute in E. injection E as <- _. vm_compute in E2. discriminate.
+Qed.
